@@ -78,7 +78,7 @@ TARGETS = [  # (target text, value expr, supported: True must render / False,Non
     ("d[1, 2]", "1", None), ("d[ns.kk]", "1", None), ("d[lst[0]]", "1", None), ("(a, ns.x, *d['k'])", "(1, 2, 3)", True),
     ("", "1", None),  # no `as` clause at all
 ]
-LAYOUTS = ["one", "gap", "multi", "paren"]
+LAYOUTS = ["one", "gap", "multi", "paren", "big"]
 
 
 def norm(expr):
@@ -117,7 +117,14 @@ def build(kind, layout, items):
 
     def item(v, t):
         return "M(%s) as %s" % (v, t) if t else "M(%s)" % v
-    if layout in ("one", "gap"):
+    if layout == "big":
+        # a large function: more than 256 locals, constants and names before the statement, so that the instructions of
+        # the with statement carry EXTENDED_ARG prefixes
+        for i in range(0, 280, 14):
+            lines.append("    " + "; ".join("q%d = %d.5" % (j, j) for j in range(i, i + 14)))
+        lines.append("    " + "; ".join("ns.a%d" % j for j in range(0, 140)))
+        lines.append("    " + "; ".join("ns.a%d" % j for j in range(140, 280)))
+    if layout in ("one", "gap", "big"):
         if layout == "gap":
             # same statement one line further down (same bytecode, different line table)
             lines.append("    # spacer")
@@ -176,6 +183,8 @@ def check_dyn(case):
     o.sub.lst = [0]
     o.kk = "k"
     o.meth = lambda *a: o
+    for j in range(280):
+        setattr(o, "a%d" % j, j)
     d = {"s": {}, "k": 0}
 
     def f(*a, **kw):
